@@ -13,6 +13,11 @@ NA_FIXED = {
 }
 
 CLAIMS = {
+    'C03': dict(
+        technique="sibling cross-check of typed-HIR normal forms of the butterfly schedule functions across engines (x86_64 and a type-checked aarch64 build for Neon), MIR pointer-provenance tracing with layout sizes for every vector load/store, unsafe census, forwarding recognition for eval_poly",
+        text="Decides the structural clauses: the FFT/IFFT schedules (loop nest, skew-table indexes, GF_MODULUS branches, kernel called per arm) are identical across NoSimd/Ssse3/Avx2 and NoSimd/Neon; every one of the 124 vector loads/stores stays inside the 64-byte block or 16-byte table entry its pointer came from; unsafe code is confined to target_feature calls, intrinsics and constant pointer offsets; every engine's eval_poly is the one shared body. The Neon engine is never executed by any x86 test; here it is analysed as a real compiled program.",
+        note="Not decided: that the SIMD nibble-shuffle kernels equal the Mul16 kernel, that Naive's one-layer schedule equals the two-layer one, index ranges passed to dist4_mut (arithmetic). A one-sided refactoring of a schedule is reported even if harmless (light arithmetic normalisation only).",
+        design="§4 C03"),
     'C04': dict(
         technique="static must-call-once / ordering analysis over MIR (un-encode exactly once, last, not on the idle path), canonical-expression agreement between writer and reader ranges and between Shards::insert and its inverse, pairing rules over typed HIR for blocks and lanes",
         text="Decides the slicing/un-encode discipline for every shard size at once: results cut to shard_bytes; the final-block re-packing runs exactly once after all transforms over exactly the range the accessor exposes, in all four codec functions; insert and undo agree on the half-block split and tail/2; Shards::resize rewrites every field; zips over blocks pair identically sliced operands; scalar kernels index blocks only by i / i+32. Tests exercise odd sizes only at (3,2), i.e. one rate.",
